@@ -447,6 +447,9 @@ where
                     }
                     Ok(None) => (),
                 }
+            } else if let Err(err) = res {
+                // failed call stops the dispatcher, do not wait for preceding calls
+                self.state.set_error(IoDispatcherError::Service(err));
             } else {
                 queue.push_back(ServiceResult::Ready(res));
                 self.state.response_idx.set(self.state.base.get().wrapping_add(queue.len()));
